@@ -40,12 +40,30 @@ def extra_cases():
     T('user-all-is-broken-overload', "empty all_is_broken(int code) { sleep(code); }\nint pick(int a) { if (a > 0) { return 1; } all_is_broken(3); write('x'); return 2; }\n" + sent + "empty @is_you(int a, int b) { sleep(pick(a)); write('.'); }\n")
     T('user-overload-then-code', "empty all_is_win(int n) { sleep(n); }\nempty f(int a) { all_is_win(a); write('a'); if (a > 1) { all_is_win(); } write('b'); }\n" + sent + "empty @is_you(int a, int b) { f(a); write('.'); }\n")
     T('terminal-calls-in-expr-position', "int f(int a) { if (a > 0) { all_is_broken(); } return 4; }\n" + sent + "empty @is_you(int a, int b) { sleep(f(a)); write('.'); }\n")
+    # the only break of a constant-true loop sits in a nested block that is followed by further nested blocks
+    for nm, brk in (('if', "if (a > 0) { break; }"), ('bare', "{ if (a > 0) { break; } }"), ('try', "try { !truth_is_defeat(a < 0); if (a > 0) { break; } } undo { a += 2; }"),
+                    ('else', "if (a <= 0) { a += 1; } else { break; }"), ('nested-loop', "for (int i = 0; i < 2; i += 1) { a += 1; } if (a > 2) { break; }")):
+        for fnm, follow in (('if', "if (b > 0) { b -= 1; }"), ('bare', "{ b -= 1; }"), ('loop', "while (b > 1) { b -= 1; }"), ('try', "try { !truth_is_defeat(b > 5); b += 1; } undo { b -= 1; }"),
+                            ('two', "if (b > 0) { b -= 1; } { a += 1; }")):
+            T('break-in-%s-then-%s' % (nm, fnm), "int @scan(int a, int b) { a = a %% 3; b = b %% 3; while (true) { %s %s a += 1; } write('r'); return a + b; }\n" % (brk, follow) + sent
+              + "empty @is_you(int a, int b) { sleep(@scan(a, b)); write('.'); }\n")
+    T('break-in-if-then-if-empty', "empty scan(int a, int b) { a = a % 3; b = b % 3; while (true) { if (a > 0) { break; } if (b > 0) { b -= 1; } a += 1; } write('r'); }\n" + sent + "empty @is_you(int a, int b) { scan(a, b); write('.'); }\n")
+    T('continue-in-if-then-if', "int scan(int a, int b) { a = a % 3; for (int i = 0; i < 3; i += 1) { if (a > i) { continue; } if (b > 0) { b -= 1; } return i; } write('r'); return 9; }\n" + sent + "empty @is_you(int a, int b) { sleep(scan(a, b)); write('.'); }\n")
+    # every activation returns to its caller, also when arrays of the function are still in scope at the return
+    for nm, decl in (('lit', "int[] v = [a, 2, 3];"), ('vla', "int v[3]; v[0] = a;"), ('bytes', "byte[] v = ['a', 'b']; v[0] = a is byte;"), ('dyn', "int n = a % 2 + 1; int v[n]; v[0] = a;"),
+                     ('two', "int[] v = [a, 1]; bool[] w = [a > 0, true];")):
+        T('return-with-array-' + nm, "int f(int a) { %s if (a > 5) { return v[0] + 1; } return v[0]; }\n" % decl + sent + "empty @is_you(int a, int b) { sleep(f(a)); sleep(f(b)); write('.'); }\n")
+        T('implicit-return-with-array-' + nm, "empty f(int a) { %s sleep(v[0]); if (a > 5) { return; } write('k'); }\n" % decl + sent + "empty @is_you(int a, int b) { f(a); f(b); write('.'); }\n")
+        T('nested-return-with-array-' + nm, "int f(int a) { for (int i = 0; i < 2; i += 1) { %s if (a > i) { return v[0] + i; } } return 0 - 1; }\nint g(int a) { %s return f(a) + v[0]; }\n" % (decl, decl)
+          + sent + "empty @is_you(int a, int b) { sleep(g(a)); write('.'); }\n")
+    T('return-with-array-in-try', "int @f(int a) { int[] v = [a, 2]; try { int[] w = [a, a]; !truth_is_defeat(a > 3); return w[0] + v[1]; } stop { return v[0]; } }\n" + sent + "empty @is_you(int a, int b) { sleep(@f(a)); sleep(@f(b)); write('.'); }\n")
+    T('return-with-array-recursive', "int f(int n) { int[] v = [n, n + 1]; if (n <= 0) { return v[1]; } return f(n - 1) + v[0]; }\n" + sent + "empty @is_you(int a, int b) { sleep(f(a % 3)); write('.'); }\n")
     T('last-function', "empty @is_you(int a, int b) { sleep(f(a)); write('.'); }\nint f(int a) { if (a > 0) { return 1; } return 2; }\n")
     return out
 
 
 def main():
-    rep = Report(PID, 'model_checking', 'symbolic execution of the emitted assembly (z3) with a function-extent fall-through monitor, and VM vs reference interpreter for returned values and dropped code')
+    rep = Report(PID, 'model_checking', 'symbolic execution of the emitted assembly (z3) with a function-extent fall-through and return-to-caller monitor, and VM vs reference interpreter for returned values and dropped code')
     quick = rep.tier == 'quick'
     cases = extra_cases() + F.cf_enumerated() + F.cf_random(rep.seed, 300 if quick else 3000)
     widths = [2, 3, 4] if quick else [2, 3, 4, 8]
